@@ -421,7 +421,7 @@ func genXRBlock(r *rng, wild bool) rtcp.ReportBlock {
 		return out
 	}
 	t := uint8(r.bits(4))
-	if wild && r.chance(1, 4) {
+	if wild && r.chance(1, 2) {
 		t = r.u8()
 	}
 	switch r.intn(9) {
